@@ -177,7 +177,11 @@ class Prop:
                 if self.id in v.props:
                     found.append((v, recs[v.sched] if v.sched is not None else recs[-1]))
         out = []
-        for v, rec in found[:1]:
+        seen_clauses = set()
+        for v, rec in found:
+            if v.clause in seen_clauses or len(out) >= 4:
+                continue
+            seen_clauses.add(v.clause)
             out.append(self.make_replay(case, v, rec, recs))
         if stats is not None:
             stats.cases += 1
@@ -517,7 +521,293 @@ class C19(Prop):
         return vs
 
 
-PROPS = {c.id: c for c in (C01, C02, C03, C04, C05, C06, C09, C10, C11, C12, C14, C19)}
+def distinct_inputs(rng, n):
+    out = []
+    for i in range(n):
+        d = gen.gen_input(rng)
+        d['rid'] = i
+        out.append({'input': d})
+    return out
+
+
+class C07(Prop):
+    id = 'C07'
+    rule = ('history = 2-4 sequential runs with different inputs on ONE chart object (some runs failing, run 0 '
+            'sometimes cancelled mid-flight); oracle: every run equals the reference outcome and invocation multiset '
+            'of a fresh evaluation for its input; deep snapshot of graph nodes/edges/attributes, node_map, node class '
+            'attributes and the caller\'s input_kwargs identical before and after every run; non-trivial = history of '
+            '>= 2 runs with different inputs in which a fault fired or a re-iteration / fallback happened')
+    k_quick = 2
+    k_thorough = 3
+
+    def gen(self, rng):
+        case = super().gen(rng)
+        case['mode'] = 'sequence'
+        case['reuse_chart'] = True
+        case['runs'] = distinct_inputs(rng, rng.choice([2, 2, 3, 4]))
+        if rng.random() < 0.2:
+            case['cancel'] = {str(rng.randrange(1, 80)): [0]}
+        return case
+
+    def judge(self, case, rec, refs, sd):
+        vs = oracles.o_termination(case, rec)
+        cancelled = {i for i, o in enumerate(rec.outcomes) if o[0] == 'cancelled'} if case.get('cancel') else set()
+        for i, ref in enumerate(refs):
+            if i >= len(rec.outcomes):
+                break
+            g, _ = oracles.general(case, rec, ref, i, cancelled=i in cancelled)
+            for v in g:
+                v.props.add('C07')
+                v.clause = 'reuse:' + v.clause
+                v.detail = f'run {i} of the history on a reused chart: ' + v.detail
+            vs += g
+        for i, snap in enumerate(rec.snaps or ()):
+            if snap != rec.snaps[0]:
+                diff = [k for k, (a, b) in enumerate(zip(rec.snaps[0], snap)) if a != b]
+                what = ['graph nodes', 'graph edges', 'node_map', 'node classes', 'input_node', 'output_node',
+                        'is_process_pool_needed', 'is_thread_pool_needed']
+                vs.append(Violation({'C07'}, 'chart_state_changed',
+                                    f'{[what[k] for k in diff]} differ after run {(i - 1) // 2} (snapshot {i})'))
+                break
+        for i, r in enumerate(case['runs']):
+            if rec.input_after and rec.input_after[i] != r['input']:
+                vs.append(Violation({'C07'}, 'input_kwargs_mutated',
+                                    f'caller dict of run {i} became {rec.input_after[i]} (was {r["input"]})', i))
+                break
+        return vs
+
+    def nontrivial(self, case, rec, refs):
+        return len(refs) >= 2 and (bool(rec.fault_hits) or any(not ok for r in refs for _, _, tried, _ in r.oneof_log
+                                                              for _, ok in tried))
+
+
+class C08(Prop):
+    id = 'C08'
+    rule = ('2-4 chart.run calls of one chart (or of two charts built from the same node classes) overlapping on one '
+            'simulated loop, all completions in one scheduler pool, one run sometimes cancelled; oracle: each run equals '
+            'its solo reference (outcome + invocation multiset; provenance digests include the run\'s input so leakage is '
+            'visible at the first contaminated node); non-trivial = >= 2 runs had completions pending at the same time')
+    k_quick = 2
+    k_thorough = 4
+
+    def gen(self, rng):
+        case = super().gen(rng)
+        case['mode'] = 'overlap'
+        case['share_chart'] = rng.random() < 0.8
+        case['runs'] = distinct_inputs(rng, rng.choice([2, 2, 3, 4]))
+        if rng.random() < 0.25:
+            case['cancel'] = {str(rng.randrange(1, 120)): [rng.randrange(len(case['runs']))]}
+        return case
+
+    def judge(self, case, rec, refs, sd):
+        vs = oracles.o_termination(case, rec)
+        cancelled = {i for i, o in enumerate(rec.outcomes) if o[0] == 'cancelled'} if case.get('cancel') else set()
+        for i, ref in enumerate(refs):
+            g, _ = oracles.general(case, rec, ref, i, cancelled=i in cancelled)
+            for v in g:
+                v.props.add('C08')
+                v.clause = 'overlap:' + v.clause
+                v.detail = f'run {i} of {len(refs)} overlapping runs: ' + v.detail
+            vs += g
+        return vs
+
+    def nontrivial(self, case, rec, refs):
+        runs_with_gates = {ev[3] for ev in rec.trace if ev[2] == 'arrive'}
+        return len(runs_with_gates) >= 2 and rec.max_pending >= 2
+
+
+class C13(Prop):
+    id = 'C13'
+    level = 'fault_enumeration'
+    n_max = 8
+    rule = ('for each sampled (program, input, fault plan, schedule) the run is executed once to learn its length N '
+            '(loop handles), then re-executed with the same decision list and CANCEL(run) injected before handle k for '
+            'EVERY k = 1..N (exhaustive over the crash points of that execution); oracle at the moment the run task is '
+            'done: no body/event/save starts afterwards, every engine task finishes without further arrivals within a '
+            'bounded number of handles, the canceller sees CancelledError only, the cancelled run never hangs; '
+            'non-trivial = the cancellation landed while the run was pending (outcome cancelled); distinct = '
+            '(case, crash point)')
+    budget_scale = 1.0
+
+    def gen(self, rng):
+        case = super().gen(rng)
+        case['scheds'] = case['scheds'][:1] if rng.random() < 0.3 else [{'seed': rng.randrange(1 << 40)}]
+        if rng.random() < 0.35:
+            case['em'] = [{'slow': rng.random() < 0.5}]
+        if rng.random() < 0.25:
+            case['store'] = {'slow': rng.random() < 0.5}
+        return case
+
+    def judge(self, case, rec, refs, sd):
+        vs = []
+        if rec.status != DONE:
+            if case.get('cancel'):
+                vs.append(Violation({'C13'}, 'cancel_hangs', f'run cancelled at {list(case["cancel"])} never ended: '
+                                    f'{rec.status} after {rec.steps} handles, outcomes {rec.outcomes}'))
+            return vs
+        vs += oracles.o_leftover(case, rec, len(refs))
+        if case.get('cancel'):
+            oc = rec.outcomes[0]
+            injected = any(ev[2] == 'cancel' for ev in rec.trace)
+            if injected and oc[0] == 'raised':
+                vs.append(Violation({'C13'}, 'cancel_surfaced_as_other_exception',
+                                    f'canceller saw {oc[1]} {oc[2]} instead of CancelledError'))
+        return vs
+
+    def nontrivial(self, case, rec, refs):
+        return rec.outcomes[0][0] == 'cancelled'
+
+    def evaluate(self, case, stats=None):
+        if case.get('cancel') is not None:
+            return super().evaluate(case, stats)
+        refs = self.refs(case)
+        names = names_of(case['spec'])
+        cd = case_digest(case)
+        sd = case['scheds'][0]
+        sched, set_seed = build_sched(sd, names)
+        base = run_case(case, sched, set_seed=set_seed)
+        if stats is not None:
+            stats.add_run(cd, base, False, sd.get('policy', 'fifo'), case['spec'].get('class'))
+            stats.cases += 1
+        vs = [v for v in self.judge(case, base, refs, sd) if self.id in v.props]
+        if vs:
+            vs[0].sched = 0
+            return [self.make_replay(case, vs[0], base, [base])]
+        if base.status != DONE:
+            if stats is not None:
+                stats.inconclusive += 1
+            return []
+        script = [[p, list(a)] for p, a in base.decisions]
+        n = base.steps
+        ks = range(1, n + 1) if n <= 160 else sorted(set(range(1, n + 1, max(1, n // 160))))
+        for k in ks:
+            c2 = dict(case)
+            c2['cancel'] = {str(k): [0]}
+            c2['scheds'] = [{'script': script, 'set_seed': set_seed}]
+            rec = run_case(c2, ScriptedScheduler(script), set_seed=set_seed)
+            if stats is not None:
+                stats.add_run(h64(cd, k), rec, self.nontrivial(c2, rec, refs), 'scripted+cancel',
+                              case['spec'].get('class'))
+                stats.probe('cancel_points')
+                if rec.outcomes[0][0] == 'cancelled':
+                    stats.probe('cancel_landed_on_pending_run')
+            vs = [v for v in self.judge(c2, rec, refs, sd) if self.id in v.props]
+            if vs:
+                vs[0].sched = 0
+                return [self.make_replay(c2, vs[0], rec, [rec])]
+        return []
+
+    def extra_coverage(self, results):
+        return {'exhaustive_over_crash_points_of_each_sampled_execution': True}
+
+
+MODE_VECTORS = ['coro', 'inline', 'thread', 'process', 'mixed', 'mixed']
+
+
+class C17(Prop):
+    id = 'C17'
+    rule = ('transparency: each sampled (program, input, fault plan) is re-run under 6 assignments of execution modes '
+            '(all coroutine / all inline / all thread / all process / 2 random mixes) with seeded schedules; every '
+            'assignment must terminate with the reference outcome (the reference has no notion of mode). fail-fast: 5 of '
+            'the 16 worker interpreters start with a deficient pool registry (no thread pool, no process pool, thread '
+            'pool shut down, process pool shut down, process manager missing; public registry API only); if the '
+            'program needs the missing pool the run must end with an error result, zero body invocations, within 60 '
+            'loop handles; non-trivial = >= 2 mode vectors compared with >= 2 completions pending, or a pool fault fired')
+    k_quick = 1
+    k_thorough = 2
+
+    def registry_states(self, n):
+        st = ['both'] * n
+        for i, s in enumerate(['no-thread', 'no-process', 'thread-shutdown', 'process-shutdown', 'no-manager']):
+            if 3 * i + 2 < n:
+                st[3 * i + 2] = s
+        return st
+
+    def gen(self, rng):
+        case = super().gen(rng)
+        case['mode_seeds'] = [rng.randrange(1 << 30) for _ in MODE_VECTORS]
+        return case
+
+    @staticmethod
+    def variant(spec, vec, seed):
+        s = copy.deepcopy(spec)
+        r = random.Random(seed)
+        for n in s['nodes']:
+            m = vec if vec != 'mixed' else r.choice(['coro', 'inline', 'thread', 'process'])
+            n['mode'] = m
+            n['gates'] = r.choice([0, 1, 1, 2]) if m == 'coro' else 0
+            n.pop('thread_tag', None)
+        return s
+
+    def evaluate(self, case, stats=None):
+        from . import materialize as mat
+        state = mat._REG.get('state', 'both')
+        if case.get('fixed_modes'):
+            variants = [(case.get('vector', '?'), case['spec'])]
+        else:
+            variants = [(vec, self.variant(case['spec'], vec, sd)) for vec, sd in zip(MODE_VECTORS, case['mode_seeds'])]
+        refs = self.refs(case)
+        names = names_of(case['spec'])
+        if stats is not None:
+            stats.cases += 1
+        for vec, spec in variants:
+            c2 = dict(case)
+            c2['spec'] = spec
+            c2['fixed_modes'] = True
+            c2['vector'] = vec
+            c2['registry'] = state
+            cd = case_digest(c2)
+            for si, sd in enumerate(case['scheds']):
+                sched, set_seed = build_sched(sd, names)
+                rec = run_case(c2, sched, set_seed=set_seed)
+                vs = self.judge_state(c2, rec, refs, state)
+                if stats is not None:
+                    stats.add_run(cd, rec, rec.max_pending >= 2 or state != 'both', sd.get('policy', 'fifo'),
+                                  spec.get('class'))
+                    stats.probe('vector_' + vec)
+                if vs:
+                    vs[0].sched = 0
+                    c3 = dict(c2)
+                    c3['scheds'] = [sd]
+                    return [self.make_replay(c3, vs[0], rec, [rec])]
+        return []
+
+    def judge_state(self, case, rec, refs, state):
+        spec = case['spec']
+        modes = {n['mode'] for n in spec['nodes']}
+        need_thread = 'thread' in modes
+        need_process = 'process' in modes
+        missing = ((state in ('no-thread', 'thread-shutdown') and need_thread)
+                   or (state in ('no-process', 'process-shutdown', 'no-manager') and need_process))
+        if state != 'both':
+            if not missing:
+                return []
+            vs = []
+            nbody = sum(1 for ev in rec.trace if ev[2] == 'body_start')
+            oc = rec.outcomes[0]
+            if rec.status != DONE:
+                vs.append(Violation({'C17'}, 'missing_pool_hangs', f'registry {state}: run {rec.status}'))
+            elif oc[0] != 'error':
+                vs.append(Violation({'C17'}, 'missing_pool_no_error', f'registry {state}: outcome {oc[:3]}'))
+            elif nbody:
+                vs.append(Violation({'C17'}, 'missing_pool_partial_run',
+                                    f'registry {state}: {nbody} node bodies were invoked before the failure'))
+            elif rec.steps > 60:
+                vs.append(Violation({'C17'}, 'missing_pool_not_immediate', f'registry {state}: {rec.steps} handles'))
+            return vs
+        vs = oracles.o_termination(case, rec) + oracles.o_outcome(case, rec, refs[0], 0)
+        out = []
+        for v in vs:
+            out.append(Violation({'C17'}, 'mode_changes_outcome',
+                                 f'mode vector {case.get("vector")} {[n["mode"] for n in spec["nodes"]]}: {v.clause}: {v.detail}'))
+        return out
+
+    def extra_coverage(self, results):
+        return {'real_pools': 'not used: thread/process pools are simulated (SimLoop.run_in_executor); baton mode with the '
+                              'real pools was designed (DESIGN 3.5) but not built', 'mode_vectors': MODE_VECTORS}
+
+
+PROPS = {c.id: c for c in (C01, C02, C03, C04, C05, C06, C07, C08, C09, C10, C11, C12, C13, C14, C17, C19)}
 
 
 def get_prop(pid, tier='quick'):
